@@ -56,3 +56,185 @@ def c03(ctx):
             exact_ok += 1
     cov.update(fresh_verification_ok=fresh_ok, fresh_verification_failed=fresh_bad, exactness_ok=exact_ok,
                exactness_failed=exact_bad, exactness_skipped_symlinked_dirs=exact_skipped, exactness_problem_kinds=pk)
+
+
+# --------------------------------------------------------------------------- C10
+def gen_c10_case(r):
+    c = PT.gen_update_case(r, rounds=0)
+    t = c.tree
+    upd, save = c.ops[0], c.ops[1]
+    files = sorted(c.meta.get('files') or [])
+    paths = [''] + [d for d in c.meta['dirs'] if d]
+    kind = r.choice(['plain', 'plain', 'fault', 'badpath', 'xdev', 'loop', 'discard'])
+    c.meta['c10'] = kind
+    pre = []
+    for _ in range(r.randint(0, 3)):
+        k = r.random()
+        if k < 0.4:
+            pre.append(['verify', r.choice(paths), r.choice([1, 2, 3, 4]), r.choice([[], [1500000000]])])
+        elif k < 0.6:
+            pre.append(['find_path_entry', r.choice(files + paths + ['absent'])])
+        elif k < 0.8:
+            pre.append(['entry_dict', r.choice(paths)])
+        else:
+            pre.append(['find_dist_entry', 'dist-%d.tar.gz' % r.randint(0, 3), r.choice(paths)])
+    if kind == 'fault':
+        inos = list(t.nodes.items())
+        i, n = r.choice(inos)
+        prim = r.choice(['scandir', 'stat', 'open']) if n['k'] == 'd' else r.choice(['open', 'fstat', 'read', 'all'])
+        en = r.choice(PT.ERRNOS)
+        c.faults = [[q, i, en] for q in ('open', 'stat', 'fstat', 'read', 'scandir')] if prim == 'all' else [[prim, i, en]]
+        c.meta['fault'] = [prim, i, en, n['k']]
+        pre = [p for p in pre if p[0] != 'verify' or p[2] in (1, 2, 3, 4)]
+    elif kind == 'badpath':
+        upd = ['update', r.choice(['absent', 'absent/deeper'] + files[:2]), [], []]
+    elif kind == 'xdev':
+        GT.mutate(r, c, dict.fromkeys(files, b''), set(), 'xdev-dir') if 'xdev-dir' in GT.MUTATIONS else None
+        c.allow_xdev = False
+    elif kind == 'loop':
+        c.meta['mutations'].append(GT.mutate(r, c, dict.fromkeys(files, b''), set(), 'loop-link'))
+    ops = [['files']] + pre + [['files'], upd, ['files'], ['loaded']]
+    if kind != 'discard':
+        ops += [save, ['files'], ['loaded']]
+        if r.random() < 0.3:
+            ops += [['verify', upd[1], 0, []], ['files']]
+    c.ops = ops
+    return c
+
+
+def lines_of(files, m):
+    ents = OX.parse(m, files[m]) if m in files else None
+    return ents
+
+
+def logical(m):
+    """name of a Manifest file without its compression suffix"""
+    fmt = ET.suffix_of(os.path.basename(m))
+    return m[:-len(fmt) - 1] if fmt else m
+
+
+def c10_check_case(ctx, c, out, report):
+    """the C10 clauses on one implementation result"""
+    ops = c.ops
+    first = None
+    saved = False
+    loaded_before = loaded_after = None
+    upath = None
+    state = {}
+    kfail = next((i for i, x in enumerate(out) if x[0] != 'ok'), len(out))
+    for op, res in zip(ops[:kfail], out[:kfail]):
+        if op[0] == 'update':
+            upath = op[1]
+        if op[0] == 'loaded':
+            if saved:
+                loaded_after = set(res[1])
+            else:
+                loaded_before = set(res[1])
+        if op[0] == 'save':
+            saved = True
+        if op[0] == 'files':
+            cur = {p: (d, m) for p, d, m in res[1]}
+            if first is None:
+                first = cur
+            elif not saved:
+                if cur != first:
+                    diff = sorted(p for p in set(cur) | set(first) if cur.get(p) != first.get(p))
+                    report('written-before-save', f'files changed without a save: {diff[:5]}')
+            else:
+                state['post'] = cur
+    # observer listings after a failed op (appended after the failing result)
+    if len(out) < len(ops) or any(x[0] != 'ok' for x in out):
+        k = next((i for i, x in enumerate(out) if x[0] != 'ok'), None)
+        if k is not None and ops[k][0] != 'save':
+            for res in out[k + 1:]:
+                cur = {p: (d, m) for p, d, m in res[1]}
+                if first is not None and cur != first:
+                    diff = sorted(p for p in set(cur) | set(first) if cur.get(p) != first.get(p))
+                    report('written-by-failed-op', f'files changed by a failed {ops[k][0]}: {diff[:5]}')
+    if 'post' not in state or first is None or loaded_before is None:
+        return None
+    post = state['post']
+    mans = set(loaded_before) | set(loaded_after or ())
+    # (a) no file other than Manifest files is modified, created or deleted
+    for p in sorted(set(first) | set(post)):
+        if p in mans:
+            continue
+        if first.get(p) != post.get(p):
+            report('foreign-file', f'{p}: {"created" if p not in first else "deleted" if p not in post else "modified"} by update+save')
+    # (c) preservation inside Manifest files
+    pre_files = {p: d for p, (d, m) in first.items()}
+    post_files = {p: d for p, (d, m) in post.items()}
+    pre_by = {}
+    for m in loaded_before:
+        if m in pre_files:
+            pre_by[logical(m)] = OX.parse(m, pre_files[m])
+    post_by = {}
+    for m in (loaded_after or ()):
+        if m in post_files:
+            post_by.setdefault(logical(m), OX.parse(m, post_files[m]))
+    for lm, pre_ents in pre_by.items():
+        post_ents = post_by.get(lm)
+        if pre_ents is None or post_ents is None:
+            continue
+        d = os.path.dirname(lm)
+        keep = lambda ents: sorted(e[4] for e in ents if e[0] in ('DIST', 'IGNORE', 'TIMESTAMP'))
+        if keep(pre_ents) != keep(post_ents):
+            report('dist-ignore-timestamp', f'{lm}: DIST/IGNORE/TIMESTAMP lines changed: {keep(pre_ents)} -> {keep(post_ents)}')
+        # entries for paths outside the updated directory (MANIFEST entries of the chain above it may be refreshed)
+        def outside(ents):
+            return sorted(e[4] for e in ents if e[0] in OX.FILE_TAGS and not OX.under(OX.norm(d, e[1]), upath or '')
+                          and e[0] != 'MANIFEST')
+        if outside(pre_ents) != outside(post_ents):
+            report('out-of-scope-entry', f'{lm}: entries outside {upath!r} changed')
+        man_out = lambda ents: sorted((e[1]) for e in ents if e[0] == 'MANIFEST' and not OX.under(OX.norm(d, e[1]), upath or '')
+                                      and not OX.under(upath or '', os.path.dirname(OX.norm(d, e[1]))))
+        if c.ops[[o[0] for o in c.ops].index('save')][2] == 0 and c.opts[2] is None and man_out(pre_ents) != man_out(post_ents):
+            report('out-of-scope-manifest-entry', f'{lm}: MANIFEST entries off the chain changed')
+        # entry type of existing file entries
+        pre_tags = {}
+        for e in pre_ents:
+            if e[0] in OX.FILE_TAGS:
+                pre_tags.setdefault(OX.norm(d, e[1]), set()).add(e[0])
+        for e in post_ents:
+            if e[0] in OX.FILE_TAGS:
+                full = OX.norm(d, e[1])
+                if full in pre_tags and e[0] not in pre_tags[full]:
+                    report('entry-type', f'{lm}: type of the entry for {full} changed from {sorted(pre_tags[full])} to {e[0]}')
+    return True
+
+
+def c10(ctx):
+    quick = ctx.tier == 'quick'
+    label = 'tree:ownership'
+    r = ctx.rng(label)
+    n = 1000 if quick else 15000
+    with ET.Scratch() as sc:
+        cases = [gen_c10_case(r) for _ in range(n)]
+        res = PT.run_cases(ctx, cases, label, sc)
+    PT.reclassify(ctx, 'ownership: the filesystem after verify/lookup/update/save differs from the reference (C10)')
+    kinds = {}
+    checked = 0
+    for c, i, m in res:
+        kinds[c.meta['c10']] = kinds.get(c.meta['c10'], 0) + 1
+        if i[0] != 'ok':
+            kinds['loader-error'] = kinds.get('loader-error', 0) + 1
+            continue
+        out = i[1]
+        probs = []
+
+        def report(k, what):
+            probs.append((k, what))
+        done = c10_check_case(ctx, c, out, report)
+        checked += 1 if done else 0
+        for k, what in probs:
+            kinds['problem:' + k] = kinds.get('problem:' + k, 0) + 1
+            if not known_finding(ctx, 'C10', c, k, what):
+                ctx.violation('spec', f'update touched what it does not own: {what}',
+                              {'meta': {k2: v for k2, v in c.meta.items() if k2 != 'paths'}, 'ops': c.ops, 'opts': list(c.opts),
+                               'faults': c.faults, 'impl': slim(out), 'tree': PT.describe(c.tree)})
+        for x in out:
+            if x[0] != 'ok':
+                kinds['err:' + str(x[1][0])] = kinds.get('err:' + str(x[1][0]), 0) + 1
+    ctx.count(label, len(cases), len({json.dumps([c.meta.get('files'), c.meta.get('manifests'), c.meta.get('mutations'), c.ops, c.faults], default=str) for c in cases}),
+              samples=[{'files': cases[0].meta.get('files'), 'ops': cases[0].ops, 'impl': slim(res[0][1][1]) if res[0][1][0] == 'ok' else res[0][1]}],
+              dist={'kinds': kinds, 'cases_with_full_clause_check': checked})
